@@ -54,11 +54,21 @@ CHECKS = {
     text="TLC checks on every reachable state of the store machine (all 1476 group shapes in scope after a gap / followed by another group; all interleavings of group creation, add_clause and update_variable_number to depth 3-5 over small alphabets) that the closed forms used by the group classes agree with the documented enumeration, that index->id and id->index are mutually inverse, that indices are in identifier order, that ranges are contiguous, disjoint and fresh, and that names are aligned. Every behaviour [gap; create shape], every history of depth 3 (thorough: 4) and hundreds to thousands of deeper random walks are replayed into cnfgen.CNF and OPB, comparing indices(), g(*index), to_index(+-id), labels, every wildcard / out-of-domain pattern of a probe universe, membership, len, number_of_variables, all_variable_labels and the varname lines of to_file with TLC's values after each call. Bounded-exhaustive in shape size and history depth.",
     note="Trusted: TLC, the transcription of the group classes' documentation into Formula.tla, the harness' rendering of abstract labels through the format strings it passed, access to the singleton group through the protected list F._groups (skipped if absent). Acceptance choices (ValueError for out-of-domain full indices / identifiers as documented; ValueError-or-empty for out-of-range wildcard patterns; word-indexed groups may refuse wildcards; binary mapping with n=0 or m=0 may refuse; identifier order for patterns) are recorded in the evidence file.",
     ref="DESIGN.md §4 C11"),
+ "C12": dict(
+    technique="denotation of OPB texts and LaTeX rows specified in TLA+ (OpbLatexIO.tla), model-checked by TLC against abstract writers on all tiny formulas (OpbLatexMC.tla); outputs of the real writers (library and command line) lexed independently and judged by TLC (trace validation, JudgeOpbLatex.tla)",
+    text="TLC model-checks the reading side of the specification on every CNF with 2 variables and up to 3 clauses and every OPB formula with 2 variables, up to 2 constraints of up to 2 terms, coefficients 0-3: written texts denote the formula for every header/varnames/page-split combination, and mutated formulas are rejected exactly when the constraint list changed. TLC then judges every text the real writers produce for a catalogue of edge cases, cnfgen families in both classes, transformations and seeded random formulas through every entry point (to_opb, to_latex, to_file, cnfgen/pbgen in process and as subprocesses): declared counts, constraint-by-constraint coefficients, literals, relation and degree, comment-only remainder, one LaTeX row per constraint with names and polarities, square/top, pages of at most 35 rows.",
+    note="Trusted: the two lexers of harness/c12.py (OPB lines/tokens; LaTeX align blocks, rows, brace matching), the projection of the formula, TLC. Names compared modulo grouping braces; un-named variables may appear as x_<i>; term order inside a row is not checked. Known finding opb:no-semicolon (open).",
+    ref="DESIGN.md §4 C12"),
  "C13": dict(
     technique="implementation-shaped TLA+ state machine of the sparse/dense sampler (Sampler.tla) model-checked exhaustively by TLC (shape, outcome rule, termination, lemmas on All and the parity encoding); answers of the real RandomKCNF/RandomKXOR and of the command line judged by TLC (JudgeSampler.tla); TLC-generated draw sequences fed through a scripted random object and judged the same way",
     text="TLC explores every reachable state of the sampler design for all planted sets of at most two assignments and every m from 0 to |All|+1 (n <= 3, selected n = 4 scopes; tries bound 1-10 per requested item), with invariants acc subset of All, distinctness, Done => |result| = m, the judge's shape verdict on the result, and Fail <=> k > n or m > |All|; strict progress and deadlock-freedom give termination. Every answer of the real library and command line on the bounded scope (n <= 5 with all k, m incl. 0 / maximum / maximum+1, many seeds, planted sets in all documented representations; larger seeded instances up to 30 variables; scripted draw sequences reaching the dense fallback deterministically) is judged by TLC against the same predicates.",
     note="Trusted: the clause/DIMACS projection and the scripted random shim in harness/c13.py, TLC. XOR results are judged set-wise; model sets compared up to 10 variables. A hidden CLI planted assignment is judged existentially. The CLI's refusal of k < 1 or n < 1 is treated as allowed. Seeds of types random.seed refuses (tuple, frozenset) are not exercised.",
     ref="DESIGN.md §4 C13"),
+ "C14": dict(
+    technique="TLA+ denotational semantics of the kthlist/dimacs/matrix graph formats with implementation-shaped reader machines and pure writers (GraphIO.tla), model-checked exhaustively by TLC; real write/read round trips and TLC-generated / mutated texts read by the real readers are judged by TLC (JudgeGraphIO.tla): graph read = graph written, accepted graph = denotation, else ValueError",
+    text="TLC explores every text of up to 6 lines over small line alphabets (vertex numbers <= 4) per format and graph type with invariants Conforms (an accepted graph is the documented denotation), Complete (strict documented texts are accepted), DagAccept and RoundTripOK (all graphs <= 3-4 vertices), about 19 M states in the thorough tier. Every graph <= 4 vertices (3x3 bipartite) and random 10-14 vertex graphs are written and read back by the real code in all advertised (type, format) pairs through StringIO, file name, from_file and the command-line graph argument. About 200 k TLC-enumerated texts and about 25 k mutated files are read by the real readers; every outcome is judged by TLC against Allowed(text).",
+    note="Trusted: the lexers and graph projection in harness/c14.py (lexer o renderer = id is asserted at run time), TLC, the transcription of www/KTHlistFormat.txt / graphformats.org / DIMACS edge format into GraphIO.tla. gml/dot grammars are networkx/pydot's: only round trip and 'graph or ValueError' are decided. Where the documentation is silent both the denoted graph and ValueError are allowed.",
+    ref="DESIGN.md §4 C14"),
  "C15": dict(
     technique="TLA+ specification GraphCmd.tla (legality classes, Promise per construction, modifier and save predicates, reference constructions) model-checked by TLC (GraphCmdMC, 6/9 configs); trace validation: TLC (JudgeGraphCmd) judges recorded outcomes of the real argparse graph actions, CLI runs and library constructors, including intermediate graphs per modifier and saved files read back; random choices explored by seeds and a skewed random source",
     text="The specification's closed forms and shape predicates are machine-checked against explicit constructions (named DAGs up to 7 vertices, grids/tori, all graphs up to 4 vertices for modifiers, bipartite up to 3x3). About 14k (quick) / 129k (thorough) recorded runs of make_graph_from_spec, cnfgen with graph arguments and the library constructors - every construction x argument menu around each documented bound x modifiers in several orders x save in every format x 20/200 seeds plus skewed random sources - are judged by TLC: outcome class (must succeed / may refuse / must refuse), Promise(constr,args,G), each modifier against the graph it actually received, saved file = graph handed on.",
